@@ -270,6 +270,23 @@ pub fn run(ctx: &Ctx) -> Report {
                 };
             }
             rep.count("pairs.monotone_suffix_after_poisoned_prefix");
+            // half of these are sorted except for their first element (a rebound above, or a dip below, what
+            // follows), and the history ends on the extreme that the end of the suffix evicts: a window that
+            // is one step short of sorted, seen by the instance with the history at the very step where the
+            // bare suffix has not evicted anything yet
+            if r % 12 == 1 && !prefix.is_empty() {
+                let (first, last) = if up { (level * 1.5, level * 0.5) } else { (level * 0.3, level * 3.0) };
+                let set = |x: &mut In, v: f64| {
+                    *x = match *x {
+                        In::S(_) => In::S(v),
+                        In::B(b) => In::B(crate::inst::Bar { o: v, h: v * 1.001, l: v * 0.999, c: v, v: b.v }),
+                    }
+                };
+                set(&mut suffix_ext[0], first);
+                let k = prefix.len() - 1;
+                set(&mut prefix[k], last);
+                rep.count("pairs.suffix_sorted_but_for_its_first_element");
+            }
         }
         let tag = if r % 3 == 2 || (!bars && r % 4 == 2) { "after_spikes" } else { "plain" };
         check_forget(rep, &p, &prefix, &suffix_ext, tag);
